@@ -909,3 +909,25 @@ def gen_aimed(rng, i, focus):
         U.append(u)
     return dict(stream="aimed:stage4", D=D, U=U, oneD=False, lb=[-2.0] * D, ub=[2.0] * D, proj=rng.random() < 0.5, tol=2.0 ** -rng.choice([1, 10, 30]),
                 cons=kind, vt="affine", log=[])
+
+
+def tie_source_small(ctx, broken, n=800):
+    """Translator validation for a property that only USES gen/Src_filter.v (the full validation is C17's tie): the generated program
+    evaluated by vm_compute on n random + n/4 table cases against the real contraints_check."""
+    from vlib import core
+    name = "correspondence:filter_source"
+    if not src_generated_ok():
+        ctx.oblige(name, "correspondence", False, "NOT EVALUATED: gen/Src_filter.v was not generated (source outside the translator's whitelist)")
+        broken.append((name, "the program regenerated from contraints_check could not be evaluated"))
+        return
+    cases = [random_case(ctx.rng, i) for i in range(n)] + [table_case(ctx.rng, i) for i in range(n // 4)]
+    lits = []
+    for c in cases:
+        tb = None if c["cons"] in (None, "ball", "half") and c["vt"] in ("none", "affine") else make_table(c)
+        lits.append(coq_q_case(c, run_real(c), tb))
+    ok, bad, log = core.run_cases("filter_src_small", REQUIRES_SRC, Q_TY, "ok_q_src", lits, shard=200, defs=DEFS + SRC_DEFS)
+    ctx.count(len(cases), len(cases))
+    if not ctx.oblige(name, "correspondence", ok and not bad, f"{len(bad)} of {len(cases)} cases differ between src_filter (vm_compute) and the real contraints_check; " + log[-300:]):
+        c = cases[bad[0]] if bad else None
+        broken.append((name, "the program regenerated from contraints_check differs from the real function" +
+                       (f" on U={c['U']} lb={c['lb']} ub={c['ub']} tol_mesh={c['tol']} proj={c['proj']} cons={c['cons']}" if c else ": case files did not compile")))
